@@ -5,7 +5,8 @@ type csmNode interface {
 	Value() int
 
 	// Reset resets the node value to the minimum valid value.
-	Reset()
+	// It returns true if there is no valid value.
+	Reset() bool
 
 	// Next changes the node value to the next valid value.
 	// It returns true if the value overflowed and false otherwise.
